@@ -1252,6 +1252,22 @@ impl Run<'_> {
         if new.values().any(|e| matches!(e, TreeEntry::Conflict(_))) {
             self.out.probe("checkout_with_conflict", 1);
         }
+        // The checkout may have rewritten or removed ignore files, so that files
+        // the user left behind (ignored until now) are no longer ignored: the
+        // next snapshot legitimately picks those up. Then the identity claim
+        // does not apply; the general snapshot oracle judges instead.
+        {
+            let ignores = IgnoreModel::from_disk(&self.env.ws);
+            let leftovers: Vec<&String> = disk_after
+                .keys()
+                .filter(|p| in_sparse(&patterns, p) && !new.contains_key(*p) && !ignores.ignored(p))
+                .collect();
+            if !leftovers.is_empty() {
+                self.note(format!("files no longer ignored after the checkout: {leftovers:?}"));
+                self.out.probe("leftover_became_unignored_by_checkout", 1);
+                return self.snapshot(ts, "after checkout (unignored leftovers)");
+            }
+        }
         // C24: an immediate snapshot (same tick or next) returns the identical tree
         if self.ch.chance(1, 2) {
             let (a, b) = self.dirs();
